@@ -1943,4 +1943,64 @@ theorem quoteCore_error_kind (l : Lang) (s : Bytes) (e : QErr) (h : quoteCore l 
           exact Or.inr (Or.inr ⟨a, b, hposix, hz, t, m, c⟩)
 
 
+/-! ## The legacy zero value -/
+
+theorem resolve_ne_zero (l : Nat) : resolve l ≠ 0 := by
+  unfold resolve
+  split
+  · decide
+  · assumption
+
+theorem resolve_idem (l : Nat) : resolve (resolve l) = resolve l := by
+  have h := resolve_ne_zero l
+  generalize resolve l = r at h
+  simp [resolve, h]
+
+theorem validLang_resolve (l : Lang) (h : validLang l = true) : validLang (resolve l) = true := by
+  unfold resolve; split
+  · decide
+  · exact h
+
+/-! ## Command position helpers -/
+
+theorem firstEq_none : ∀ v : Bytes, (0x3d : UInt8) ∉ v → firstEq v = none := by
+  intro v
+  induction v with
+  | nil => intro _; rfl
+  | cons c v ih =>
+    intro h
+    have hc : c ≠ 0x3d := fun e => h (by simp [e])
+    simp only [firstEq, hc, ↓reduceIte, ih (fun m => h (List.mem_cons_of_mem _ m)), Option.map]
+
+theorem stmtWord_false (l : Lang) (s : Bytes) (hk : isKeyword s = false)
+    (hb : (0x7b : UInt8) ∉ s) (hc : clauseWord l s = false) : stmtWord l s = false := by
+  have k1 : ∀ x ∈ ([[0x21], [0x63, 0x61, 0x73, 0x65], [0x64, 0x6f], [0x64, 0x6f, 0x6e, 0x65],
+      [0x65, 0x73, 0x61, 0x63], [0x66, 0x69], [0x66, 0x6f, 0x72], [0x69, 0x66],
+      [0x74, 0x68, 0x65, 0x6e], [0x75, 0x6e, 0x74, 0x69, 0x6c], [0x77, 0x68, 0x69, 0x6c, 0x65],
+      [0x7b], [0x7d], elifWord] : List Bytes), isKeyword x = true := by decide
+  have k2 : ∀ x ∈ ([[0x5b, 0x5b], [0x5d, 0x5d], [0x66, 0x75, 0x6e, 0x63, 0x74, 0x69, 0x6f, 0x6e],
+      [0x73, 0x65, 0x6c, 0x65, 0x63, 0x74], [0x74, 0x69, 0x6d, 0x65]] : List Bytes),
+      isKeyword x = true := by decide
+  have k3 : isKeyword [0x63, 0x6f, 0x70, 0x72, 0x6f, 0x63] = true := by decide
+  unfold stmtWord
+  simp only [hc, Bool.or_false, Bool.or_eq_false_iff, Bool.and_eq_false_iff]
+  refine ⟨⟨⟨?_, ?_⟩, ?_⟩, ?_⟩
+  · cases hm : List.contains _ s with
+    | false => rfl
+    | true =>
+      have e := k1 s (List.contains_iff_mem.mp hm); rw [hk] at e; cases e
+  · right
+    cases hm : List.contains _ s with
+    | false => rfl
+    | true => have e := k2 s (List.contains_iff_mem.mp hm); rw [hk] at e; cases e
+  · right
+    cases hm : (s == [0x63, 0x6f, 0x70, 0x72, 0x6f, 0x63]) with
+    | false => rfl
+    | true => rw [beq_iff_eq.mp hm, k3] at hk; cases hk
+  · right
+    cases hm : (s == [0x7b, 0x7d]) with
+    | false => rfl
+    | true => exact absurd (by rw [beq_iff_eq.mp hm]; simp) hb
+
+
 end ShVerif.C13
